@@ -639,6 +639,40 @@ func init() {
 							}
 						}
 					}
+					// an index helper of the same type: `top := r.topConditionIndex()` with
+					// `func (r *Runtime) topConditionIndex() int { return len(r.conditionStack) - 1 }`
+					if ce, ok := e.(*ast.CallExpr); ok && depth < 3 && len(ce.Args) == 0 {
+						if h := originOf(Callee(info, ce)); h != nil {
+							if hd := c.declOf[h]; hd != nil && hd.Body != nil && len(hd.Body.List) == 1 {
+								if rs, ok := hd.Body.List[0].(*ast.ReturnStmt); ok && len(rs.Results) == 1 {
+									hinfo := c.pkgOf[hd].TypesInfo
+									var hterm func(x ast.Expr) (int, bool)
+									hterm = func(x ast.Expr) (int, bool) {
+										x = ast.Unparen(x)
+										if lc, ok := x.(*ast.CallExpr); ok && len(lc.Args) == 1 {
+											if id, ok := ast.Unparen(lc.Fun).(*ast.Ident); ok && id.Name == "len" && FieldOfSelector(hinfo, lc.Args[0]) == fld {
+												return 0, true
+											}
+										}
+										if be, ok := x.(*ast.BinaryExpr); ok && (be.Op == token.SUB || be.Op == token.ADD) {
+											if off, ok := hterm(be.X); ok {
+												if k, okc := intConst(hinfo, be.Y); okc {
+													if be.Op == token.SUB {
+														return off - k, true
+													}
+													return off + k, true
+												}
+											}
+										}
+										return 0, false
+									}
+									if off, ok := hterm(rs.Results[0]); ok {
+										return off, true
+									}
+								}
+							}
+						}
+					}
 					if o := identObj(info, e); o != nil && depth < 3 {
 						var def ast.Expr
 						n := 0
